@@ -77,6 +77,16 @@ def build_reference(wspec):
     elif t in ("LSTM", "GRU", "SimpleRNN"):
       x = getattr(L, t)(l["units"], return_sequences=l.get("seq", False),
                         name=name)(x)
+    elif t == "QDense":
+      import qkeras as qk
+      x = qk.QDense(l["units"], kernel_quantizer=l.get("kq"),
+                    bias_quantizer=l.get("bq"), activation=l.get("aq"),
+                    name=name)(x)
+    elif t == "QConv2D":
+      import qkeras as qk
+      x = qk.QConv2D(l["filters"], l["kernel"], padding="same",
+                     kernel_quantizer=l.get("kq"), bias_quantizer=l.get("bq"),
+                     name=name)(x)
     elif t == "Activation":
       x = L.Activation(l["act"], name=name)(x)
     elif t == "Flatten":
@@ -757,6 +767,13 @@ def gen_layers(rng):
                        "act": rng.pick(["relu", "tanh", "linear", "softmax"])})
   if cur != "vec":
     layers.append({"t": "Flatten", "name": "flat"})
+  if rng.chance(0.3):
+    # a layer that is already (partially) quantized in the reference model:
+    # trials keep it as it is, the size model must count it
+    layers.append({"t": "QDense", "name": "pq0", "units": rng.pick([2, 3]),
+                   "kq": rng.pick(["quantized_bits(4,0,1)", "ternary", None]),
+                   "bq": rng.pick([None, "quantized_bits(6,2,1)"]),
+                   "aq": rng.pick([None, "quantized_relu(6,2)"])})
   layers.append({"t": "Dense", "name": nm("fc"), "units": rng.pick([2, 3]),
                  "act": rng.pick([None, "softmax"])})
   return kind, layers
@@ -966,6 +983,22 @@ def directed():
       ("separable", "img", sep, {"SeparableConv2D": [4, 4, 4],
                                  "DepthwiseConv2D": [4, 4, 4]}, {}),
   ]
+  preq = [{"t": "QDense", "name": "pq0", "units": 4,
+           "kq": "quantized_bits(4,0,1)", "bq": None,
+           "aq": "quantized_relu(6,2)"},
+          {"t": "QDense", "name": "pq1", "units": 3, "kq": None,
+           "bq": "quantized_bits(6,2,1)"},
+          {"t": "Dense", "name": "fc0", "units": 2, "act": "relu"},
+          {"t": "Dense", "name": "fc1", "units": 2, "act": "softmax"}]
+  worlds.append(("pre-quantized-partial-layers", "vec", preq,
+                 {"Dense": [4, 4, 4]}, {}))
+  cpre = [{"t": "QConv2D", "name": "pq0", "filters": 2, "kernel": 2,
+           "kq": "quantized_bits(4,0,1)", "bq": None},
+          {"t": "Conv2D", "name": "cv0", "filters": 2, "kernel": 2,
+           "act": "relu"}, {"t": "Flatten", "name": "flat"},
+          {"t": "Dense", "name": "fc0", "units": 2, "act": None}]
+  worlds.append(("pre-quantized-partial-conv", "img", cpre,
+                 {"Conv2D": [4, 4, 4], "Dense": [4, 4, 4]}, {}))
   out = []
   for label, kind, layers, limit, extra in worlds:
     w = {"input": kind, "layers": layers, "limit": limit, "wseed": 3,
